@@ -302,6 +302,101 @@ def full_exemplars(exemplars):
     return out
 
 
+def _nodes_in(v):
+    A = walkspec.astnode()
+    if isinstance(v, A):
+        yield v
+    elif isinstance(v, (list, tuple)):
+        for x in v:
+            yield from _nodes_in(x)
+    elif isinstance(v, dict):
+        for x in v.values():
+            yield from _nodes_in(x)
+
+
+def mixed_exemplars(exemplars, limit=24):
+    """synthetic exemplars that stress the uniformity assumption: for every list- or dict-valued child attribute the
+    contents of two exemplars whose elements are of different classes are concatenated, in both orders (e.g. VALUES rows
+    of literals followed by rows of expressions and vice versa).  A branch whose behaviour depends on what the children
+    are, or on a child's position, then disagrees with the other exemplars (`nonuniform`)."""
+    by_attr = {}
+    for ex in exemplars:
+        for a, v in vars(ex).items():
+            if isinstance(v, (list, dict)) and _has_node(v):
+                sig = tuple(sorted({type(c).__name__ for c in _nodes_in(v)}))
+                by_attr.setdefault(a, {}).setdefault(sig, (ex, v))
+    out = []
+    for a in sorted(by_attr):
+        donors = [by_attr[a][k] for k in sorted(by_attr[a])][:4]
+        for i, (ex_a, v_a) in enumerate(donors):
+            for j, (ex_b, v_b) in enumerate(donors):
+                if i == j:
+                    continue
+                try:
+                    v_b2 = copy.deepcopy(v_b)
+                except Exception:
+                    continue
+                if isinstance(v_a, list) and isinstance(v_b2, list):
+                    mix = list(v_a) + list(v_b2)
+                elif isinstance(v_a, dict) and isinstance(v_b2, dict):
+                    mix = dict(v_a)
+                    for k, x in v_b2.items():
+                        mix[k if k not in mix else '%s_2' % k] = x
+                else:
+                    continue
+                n = copy.copy(ex_a)
+                setattr(n, a, mix)
+                try:
+                    n.to_string()
+                    copy.deepcopy(n)
+                except Exception:
+                    continue
+                out.append(n)
+    return out[:limit]
+
+
+def probe_markers(n=30):
+    """`planner.utils.sort_by_text_position` orders placeholders by `text.find(marker)`.  The Lean model
+    (`Params.sortByText`) replaces the search by the print-template position, which is right iff every marker is found
+    where its own placeholder is rendered.  Probed here: the rendered markers of n placeholders (emitted as data; the
+    kernel checks that none occurs inside another) and the behaviour of the search on adversarial arrangements."""
+    from mindsdb_sql.planner import utils
+    from mindsdb_sql.parser.ast import Parameter
+    f = getattr(utils, 'sort_by_text_position', None)
+    if f is None:
+        return dict(markers=[], failures=['planner.utils.sort_by_text_position not found'])
+    params = [Parameter('?') for _ in range(n)]
+    seen = {}
+
+    class Q:
+        def __init__(self, order):
+            self.order = order
+
+        def to_string(self):
+            seen['m'] = [p.to_string() for p in params]
+            return 'SELECT ' + ', '.join(params[i].to_string() for i in self.order) + ' FROM t'
+    rng = common.rng_for(0, 'x_schema/markers')
+    orders = [list(range(n)), list(range(n - 1, -1, -1)), list(range(10, n)) + list(range(10)),
+              list(range(1, n)) + [0]]
+    for _ in range(4):
+        o = list(range(n))
+        rng.shuffle(o)
+        orders.append(o)
+    failures = []
+    for order in orders:
+        try:
+            res = f(Q(order), list(params))
+            got = [next(i for i, p in enumerate(params) if p is r) for r in res]
+        except Exception as e:
+            failures.append('raises %s' % type(e).__name__)
+            continue
+        if got != order:
+            failures.append('rendered order %s, returned %s' % (order, got))
+        if any(p.value != '?' for p in params):
+            failures.append('placeholder values not restored')
+    return dict(markers=seen.get('m', []), failures=failures[:3])
+
+
 def probe_class(cn, exemplars):
     slots = []                 # attr names in vars order of first appearance
     values = {}                # attr -> set of value class names
@@ -310,7 +405,7 @@ def probe_class(cn, exemplars):
     unprinted_seen, printed_seen = set(), set()
     nonuniform = []
     unprintable = 0
-    exemplars = full_exemplars(exemplars) + list(exemplars)
+    exemplars = full_exemplars(exemplars) + list(exemplars) + mixed_exemplars(exemplars)
     for ex in exemplars:
         ch = walkspec.children(ex)
         for a, p, c in ch:
@@ -533,6 +628,9 @@ def emit_lean(schema):
                                                             kinds, pr, ', '.join(ws)))
     L.append(',\n'.join(rows) + ']')
     L.append('')
+    L.append('/-- the markers rendered by `sort_by_text_position` for %d placeholders, as code points -/' % len(schema['markers']['markers']))
+    L.append('def markers : List (List Nat) := [%s]' % ', '.join('[%s]' % ', '.join(str(ord(ch)) for ch in m) for m in schema['markers']['markers']))
+    L.append('')
     L.append('/-- number of classes whose exemplars disagreed with each other (uniformity of the probe) -/')
     L.append('def nonuniform : Nat := %d' % sum(1 for c in schema['classes'].values() if c['nonuniform']))
     L.append('')
@@ -557,7 +655,7 @@ def build():
         c['deviations'] = deviations(cn, c)
         classes[cn] = c
     schema = dict(class_names=names, class_id={n: i for i, n in enumerate(names) if n}, classes=classes,
-                  parsed=parsed)
+                  parsed=parsed, markers=probe_markers())
     return schema
 
 
